@@ -188,13 +188,28 @@ def run_case(seed, tier, rec, st):
         src = []
         names = ["B", "C", "E", "F"][:nbodies]
         class_fields = {}
+        # an UNDECORATED base class that merely annotates some of the member names, in another order: typing lists its
+        # annotations first, dataclasses ignore it - the field table (order of constructor parameters) is the dataclasses'
+        zbase = None
+        if not diamond and "slots" not in dc_args and rng.random() < 0.2:
+            znames = [f["name"] for b in bodies for f in b if f["role"] in ("req", "def", "fac", "kwreq", "kwdef")]
+            rng.shuffle(znames)
+            znames = znames[:rng.randint(1, max(1, len(znames)))]
+            if znames:
+                zbase = rng.randrange(nbodies)
+                src.append("class Z:")
+                src += [f"    {n}: Any" for n in znames]
         for lv, fs in enumerate(bodies):
             if lv == 0:
                 base = "DataClassDictMixin" if mixin else ""
+                if zbase == 0:
+                    base = "Z, " + base if base else "Z"
             elif diamond:
                 base = "B" if lv < 3 else "C, E"
             else:
                 base = names[lv - 1]
+                if zbase == lv:
+                    base = f"{base}, Z"        # (Z first would legitimately re-type the inherited members as Any)
             src.append(f"@dataclass{dc_args}")
             src.append(f"class {names[lv]}" + (f"({base})" if base else "") + ":")
             body = render_level(fs)
@@ -306,12 +321,17 @@ def run_case(seed, tier, rec, st):
                     # attribute found along the MRO, which need not be the default of the winning Field)
                     exp[name] = getattr(cls, name) if diamond else spec[name]["default"]
             det = lambda **kw: dict({"source": "\n".join(src), "input": common.short(d, 400), "present": [n for p, n in zip(mask, init_fields) if p]}, **kw)
-            facts = {"allow_not_by_alias": allow, "levels": levels, "override": bool(overrides), "diamond": diamond, "via_holder_after_ancestor": via_holder}
+            facts = {"allow_not_by_alias": allow, "levels": levels, "override": bool(overrides), "diamond": diamond, "via_holder_after_ancestor": via_holder,
+                     "undecorated_base": zbase is not None}
             try:
                 r = dec(dict(d))
                 r2 = dec(dict(d))
             except MissingField as e:
                 if miss is not None and e.field_name == miss:
+                    rec.count("agree_missing")
+                elif zbase is not None and e.field_name in [n for p, n in zip(mask, init_fields) if not p and spec[n]["role"] in ("req", "kwreq")]:
+                    # with an undecorated base annotating member names "the first missing member" depends on whose order
+                    # is meant (typing's or dataclasses'): any absent required member is accepted
                     rec.count("agree_missing")
                 else:
                     rec.violation("wrong-or-unexpected-MissingField", det(observed_field=e.field_name, expected_field=miss), facts)
